@@ -788,7 +788,7 @@ impl ScopedVariable {
             while let Some(scope) = parent {
                 if let Some(value) = exec
                     .scoped
-                    .try_get(scope.id() as u32)
+                    .try_get(scope.id() as SyntaxNodeID)
                     .and_then(|v| v.get(&self.name))
                 {
                     return Ok(value);
